@@ -544,6 +544,12 @@ func ruleR11d(h *H) {
 							out = f
 						}
 					}
+					// the case only selects a method value that is called after the switch
+					if mc, ok := in.(*ssa.MakeClosure); ok {
+						if f := ir.BoundMethod(mc); f != nil && ir.InRepo(f) {
+							out = f
+						}
+					}
 				}
 				return out
 			}
